@@ -841,7 +841,7 @@ pub fn run(tier: Tier, seed: u64) -> ! {
             acc.merge(manager_exhaustive(seed, 4, 2, false, 80, "exhaustive.4tx_2ent.sampled"));
         }
     }
-    acc.merge(manager_random(seed, tier.pick(400_000, 8_000_000)));
+    acc.merge(manager_random(seed, tier.pick(1_200_000, 8_000_000)));
     lap("manager random + larger families");
     acc.into_report(&mut rep);
     lap("merge");
@@ -850,7 +850,7 @@ pub fn run(tier: Tier, seed: u64) -> ! {
 
     // session level
     session_matrix(&mut rep);
-    session_random(&mut rep, seed, tier.pick(600, 20_000));
+    session_random(&mut rep, seed, tier.pick(1500, 20_000));
 
     lap("session");
     // threaded
